@@ -92,6 +92,13 @@ pub mod stdspec {
     #[verifier::external_body]
     pub broadcast proof fn ax_i32_tryinto_obeys()
         ensures #[trigger] <i32 as vstd::std_specs::convert::TryIntoSpec<i32>>::obeys_try_into_spec() {}
-    pub broadcast group ax_vec_from_refl { ax_vec_into_refl, ax_vec_into_obeys, ax_i32_tryinto_refl, ax_i32_tryinto_obeys }
+    // std: `impl<T: Clone> From<&[T]> for Vec<T>` copies the slice (`s.to_vec()`)
+    #[verifier::external_body]
+    pub broadcast proof fn ax_slice_into_vec<'a>(s: &'a [f64])
+        ensures (#[trigger] <&'a [f64] as vstd::std_specs::convert::IntoSpec<Vec<f64>>>::into_spec(s))@ == s@ {}
+    #[verifier::external_body]
+    pub broadcast proof fn ax_slice_into_obeys<'a>()
+        ensures #[trigger] <&'a [f64] as vstd::std_specs::convert::IntoSpec<Vec<f64>>>::obeys_into_spec() {}
+    pub broadcast group ax_vec_from_refl { ax_vec_into_refl, ax_vec_into_obeys, ax_i32_tryinto_refl, ax_i32_tryinto_obeys, ax_slice_into_vec, ax_slice_into_obeys }
     }
 }
